@@ -313,6 +313,8 @@ def shared(ctx):
     from rules.props import c20, c03
     core.import_rules(ctx, [c20.r1_protocol, c20.r2_confinement, c20.r4_activation], "X20")
     core.import_rules(ctx, [c03.r2_batch_commutativity], "X03")
+    from rules.props import c06
+    core.import_rules(ctx, [c06.r5_activation_table], "X06")          # which transaction commitment the header carries is decided by TIP-908
 
 
 RULES = [r1_header_map, r2_chain_step, r3_network_write_once, r4_key_agreement, r5_tx_commitment, r6_stake_commitment, shared]
